@@ -136,6 +136,9 @@ struct World {
     /// tracers created by the factory (children), in creation order
     factory_tracers: Vec<u32>,
     tracer_thread: HashMap<u32, u64>,
+    xrecv: HashMap<u32, u64>,
+    /// number of `xq:` marks (self-sends announced by the document) in this case
+    selfsends: u64,
     /// the log hit its cap (runaway session): waiters give up at once
     overflow: bool,
 }
@@ -213,6 +216,8 @@ pub fn begin_case() -> u64 {
     w.gates.clear();
     w.factory_tracers.clear();
     w.tracer_thread.clear();
+    w.xrecv.clear();
+    w.selfsends = 0;
     w.overflow = false;
     drop(w);
     shared().cv.notify_all();
@@ -395,6 +400,12 @@ impl Tracer for RecTracer {
     fn event_external_send(&self, _what: &Event) {}
     fn event_external_received(&mut self, what: &Event) {
         push(self.epoch, self.id, Ev::XRecv(EvRec::from_event(what)));
+        let mut w = lock();
+        if w.epoch == self.epoch {
+            *w.xrecv.entry(self.id).or_insert(0) += 1;
+        }
+        drop(w);
+        shared().cv.notify_all();
     }
     fn trace_state(&self, _what: &str, _s: &State) {}
     fn trace_enter_state(&self, s: &State) {
@@ -456,6 +467,12 @@ impl Action for MarkAction {
         let args: Vec<V> = it
             .map(|d| V::from_data(d).unwrap_or_else(|e| V::Str(format!("<error:{}>", e))))
             .collect();
+        if tag.starts_with("xq:") {
+            let mut w = lock();
+            if w.epoch == self.epoch {
+                w.selfsends += 1;
+            }
+        }
         push(
             self.epoch,
             0,
@@ -659,4 +676,32 @@ pub fn sample_config(tracer: u32, arc: &GlobalDataArc, whr: &str) {
 
 pub fn overflowed() -> bool {
     lock().overflow
+}
+
+/// Waits until the session is blocked in its external queue with everything consumed:
+/// `sent` events were sent by the harness, self-sends are announced by `xq:` marks.
+pub fn wait_quiescent(tracer: u32, sent: u64, timeout: Duration) -> Wait {
+    let deadline = Instant::now() + timeout;
+    let mut w = lock();
+    loop {
+        if w.finished.contains(&tracer) {
+            return Wait::Finished;
+        }
+        let x = *w.xrecv.get(&tracer).unwrap_or(&0);
+        let i = *w.idle.get(&tracer).unwrap_or(&0);
+        if i == x + 1 && x == sent + w.selfsends {
+            return Wait::Idle;
+        }
+        if w.overflow {
+            return Wait::Timeout;
+        }
+        let now = Instant::now();
+        if now >= deadline {
+            return Wait::Timeout;
+        }
+        w = match shared().cv.wait_timeout(w, deadline - now) {
+            Ok((g, _)) => g,
+            Err(p) => p.into_inner().0,
+        };
+    }
 }
